@@ -6,45 +6,60 @@
 #ifndef QBE_MNEMONIC_H
 #define QBE_MNEMONIC_H
 
-static void
+static const char *
 x_mnemonic(int op)
 {
 	switch (op) {
-	case IADD: x_lit("add"); break;       case ISUB: x_lit("sub"); break;       case INEG: x_lit("neg"); break;
-	case IDIV: x_lit("div"); break;       case IMUL: x_lit("mul"); break;       case IUDIV: x_lit("udiv"); break;
-	case IREM: x_lit("rem"); break;       case IUREM: x_lit("urem"); break;     case IOR: x_lit("or"); break;
-	case IXOR: x_lit("xor"); break;       case IAND: x_lit("and"); break;       case ISAR: x_lit("sar"); break;
-	case ISHR: x_lit("shr"); break;       case ISHL: x_lit("shl"); break;
-	case ISTORED: x_lit("stored"); break; case ISTORES: x_lit("stores"); break; case ISTOREL: x_lit("storel"); break;
-	case ISTOREW: x_lit("storew"); break; case ISTOREH: x_lit("storeh"); break; case ISTOREB: x_lit("storeb"); break;
-	case ILOADD: x_lit("loadd"); break;   case ILOADS: x_lit("loads"); break;   case ILOADL: x_lit("loadl"); break;
-	case ILOADW: x_lit("loadw"); break;   case ILOADSH: x_lit("loadsh"); break; case ILOADUH: x_lit("loaduh"); break;
-	case ILOADSB: x_lit("loadsb"); break; case ILOADUB: x_lit("loadub"); break;
-	case IALLOC4: x_lit("alloc4"); break; case IALLOC8: x_lit("alloc8"); break; case IALLOC16: x_lit("alloc16"); break;
-	case ICEQW: x_lit("ceqw"); break;     case ICNEW: x_lit("cnew"); break;     case ICSLEW: x_lit("cslew"); break;
-	case ICSLTW: x_lit("csltw"); break;   case ICSGEW: x_lit("csgew"); break;   case ICSGTW: x_lit("csgtw"); break;
-	case ICULEW: x_lit("culew"); break;   case ICULTW: x_lit("cultw"); break;   case ICUGEW: x_lit("cugew"); break;
-	case ICUGTW: x_lit("cugtw"); break;
-	case ICEQL: x_lit("ceql"); break;     case ICNEL: x_lit("cnel"); break;     case ICSLEL: x_lit("cslel"); break;
-	case ICSLTL: x_lit("csltl"); break;   case ICSGEL: x_lit("csgel"); break;   case ICSGTL: x_lit("csgtl"); break;
-	case ICULEL: x_lit("culel"); break;   case ICULTL: x_lit("cultl"); break;   case ICUGEL: x_lit("cugel"); break;
-	case ICUGTL: x_lit("cugtl"); break;
-	case ICEQS: x_lit("ceqs"); break;     case ICNES: x_lit("cnes"); break;     case ICLES: x_lit("cles"); break;
-	case ICLTS: x_lit("clts"); break;     case ICGES: x_lit("cges"); break;     case ICGTS: x_lit("cgts"); break;
-	case ICOS: x_lit("cos"); break;       case ICUOS: x_lit("cuos"); break;
-	case ICEQD: x_lit("ceqd"); break;     case ICNED: x_lit("cned"); break;     case ICLED: x_lit("cled"); break;
-	case ICLTD: x_lit("cltd"); break;     case ICGED: x_lit("cged"); break;     case ICGTD: x_lit("cgtd"); break;
-	case ICOD: x_lit("cod"); break;       case ICUOD: x_lit("cuod"); break;
-	case IEXTSW: x_lit("extsw"); break;   case IEXTUW: x_lit("extuw"); break;   case IEXTSH: x_lit("extsh"); break;
-	case IEXTUH: x_lit("extuh"); break;   case IEXTSB: x_lit("extsb"); break;   case IEXTUB: x_lit("extub"); break;
-	case IEXTS: x_lit("exts"); break;     case ITRUNCD: x_lit("truncd"); break;
-	case ISTOSI: x_lit("stosi"); break;   case ISTOUI: x_lit("stoui"); break;   case IDTOSI: x_lit("dtosi"); break;
-	case IDTOUI: x_lit("dtoui"); break;   case ISWTOF: x_lit("swtof"); break;   case IUWTOF: x_lit("uwtof"); break;
-	case ISLTOF: x_lit("sltof"); break;   case IULTOF: x_lit("ultof"); break;
-	case ICAST: x_lit("cast"); break;     case ICOPY: x_lit("copy"); break;     case ICALL: x_lit("call"); break;
-	case IVASTART: x_lit("vastart"); break; case IVAARG: x_lit("vaarg"); break;
-	default: x_lit("?"); break;
+	case IADD: return "add";       case ISUB: return "sub";       case INEG: return "neg";
+	case IDIV: return "div";       case IMUL: return "mul";       case IUDIV: return "udiv";
+	case IREM: return "rem";       case IUREM: return "urem";     case IOR: return "or";
+	case IXOR: return "xor";       case IAND: return "and";       case ISAR: return "sar";
+	case ISHR: return "shr";       case ISHL: return "shl";
+	case ISTORED: return "stored"; case ISTORES: return "stores"; case ISTOREL: return "storel";
+	case ISTOREW: return "storew"; case ISTOREH: return "storeh"; case ISTOREB: return "storeb";
+	case ILOADD: return "loadd";   case ILOADS: return "loads";   case ILOADL: return "loadl";
+	case ILOADW: return "loadw";   case ILOADSH: return "loadsh"; case ILOADUH: return "loaduh";
+	case ILOADSB: return "loadsb"; case ILOADUB: return "loadub";
+	case IALLOC4: return "alloc4"; case IALLOC8: return "alloc8"; case IALLOC16: return "alloc16";
+	case ICEQW: return "ceqw";     case ICNEW: return "cnew";     case ICSLEW: return "cslew";
+	case ICSLTW: return "csltw";   case ICSGEW: return "csgew";   case ICSGTW: return "csgtw";
+	case ICULEW: return "culew";   case ICULTW: return "cultw";   case ICUGEW: return "cugew";
+	case ICUGTW: return "cugtw";
+	case ICEQL: return "ceql";     case ICNEL: return "cnel";     case ICSLEL: return "cslel";
+	case ICSLTL: return "csltl";   case ICSGEL: return "csgel";   case ICSGTL: return "csgtl";
+	case ICULEL: return "culel";   case ICULTL: return "cultl";   case ICUGEL: return "cugel";
+	case ICUGTL: return "cugtl";
+	case ICEQS: return "ceqs";     case ICNES: return "cnes";     case ICLES: return "cles";
+	case ICLTS: return "clts";     case ICGES: return "cges";     case ICGTS: return "cgts";
+	case ICOS: return "cos";       case ICUOS: return "cuos";
+	case ICEQD: return "ceqd";     case ICNED: return "cned";     case ICLED: return "cled";
+	case ICLTD: return "cltd";     case ICGED: return "cged";     case ICGTD: return "cgtd";
+	case ICOD: return "cod";       case ICUOD: return "cuod";
+	case IEXTSW: return "extsw";   case IEXTUW: return "extuw";   case IEXTSH: return "extsh";
+	case IEXTUH: return "extuh";   case IEXTSB: return "extsb";   case IEXTUB: return "extub";
+	case IEXTS: return "exts";     case ITRUNCD: return "truncd";
+	case ISTOSI: return "stosi";   case ISTOUI: return "stoui";   case IDTOSI: return "dtosi";
+	case IDTOUI: return "dtoui";   case ISWTOF: return "swtof";   case IUWTOF: return "uwtof";
+	case ISLTOF: return "sltof";   case IULTOF: return "ultof";
+	case ICAST: return "cast";     case ICOPY: return "copy";     case ICALL: return "call";
+	case IVASTART: return "vastart"; case IVAARG: return "vaarg";
+	default: return "?";
 	}
+}
+
+/* two NUL-terminated names of at most 8 characters are the same text */
+static bool
+x_samename(const char *a, const char *b)
+{
+	unsigned i;
+
+	for (i = 0; i < 9; i++) {
+		if (a[i] != b[i])
+			return 0;
+		if (!a[i])
+			return 1;
+	}
+	return 0;
 }
 
 #endif
